@@ -30,7 +30,7 @@ REQUIRED_CLASSES = ["nontrivial", "latched_then_request", "disconnected_then_req
                     "connect_after_error", "never_connected_request", "warm_history", "close_raises", "flood_of_later_errors"]
 QUICK_SHARDS = 4
 
-FAULT_KINDS = ["silence", "errline", "wrongname", "raise_write", "raise_read", "old_firmware"]
+FAULT_KINDS = ["silence", "errline", "wrongname", "raise_write", "raise_read", "old_firmware", "late_reply"]
 MULTI = {"timed_pause", "dio_b_config", "var_write_int32", "var_read_int32", "motors_enable"}
 
 
@@ -157,6 +157,11 @@ class Sim:
         finally:
             self.in_request = False
         wrote = sum(len(p.writes) - b for p, b in zip(watched, before))
+        # empty reads stand for time passing: once the call is over they are gone, and a reply that arrived too late
+        # is what sits at the head of the input buffer
+        for p_ in watched:
+            while p_.rx and p_.rx[0] == b"":
+                p_.rx.popleft()
         if blocked:
             if raised is not None:
                 self.fail("%s%r with %s raised %s: %s" % (name, tuple(args), state,
@@ -208,9 +213,13 @@ def call_ops(draw, with_fault_prob=50):
     if draw(st.integers(0, 99)) < with_fault_prob:
         idx = draw(st.integers(0, 9))
         excs = SERIAL_FAMILY if name in ("reboot", "bootload") else ALL_EXC
-        kind = draw(st.sampled_from(["silence", "errline", "wrongname", "raise"]))
+        kind = draw(st.sampled_from(["silence", "errline", "wrongname", "raise", "late"]))
         if kind == "raise":
             faults[str(idx)] = ["raise", draw(st.sampled_from(excs))]
+        elif kind == "late":
+            # the reply is late: 30 empty reads come first, so the request times out and the reply then sits
+            # unread in the port's input buffer
+            faults[str(min(idx, 1))] = ["empty", 30]
         else:
             faults[str(idx)] = [kind]
     return ["call", name, args, faults]
@@ -275,8 +284,8 @@ def grid_body(ctx, case):
         sim.step(["connect", "good"])
         excs = "SerialException"
         fault = {"silence": ["silence"], "errline": ["errline"], "wrongname": ["wrongname"],
-                 "raise_write": ["raise", excs], "raise_read": ["raise", excs]}[kind]
-        idx = 1 if kind == "raise_read" else 0
+                 "raise_write": ["raise", excs], "raise_read": ["raise", excs], "late_reply": ["empty", 30]}[kind]
+        idx = 1 if kind in ("raise_read", "late_reply") else 0
         if kind in ("errline", "wrongname"):
             idx = 1                               # replace the line returned by the first read
         sim.step(["call", m1, list(em.METHODS[m1][1]), {str(idx): fault}])
@@ -288,6 +297,7 @@ def grid_body(ctx, case):
 
 
 WARM_FAULTS = {"silence": ["0", ["silence"]], "errline": ["1", ["errline"]], "wrongname": ["1", ["wrongname"]],
+               "late_reply": ["1", ["empty", 30]],
                "raise_write": ["0", ["raise", "SerialException"]], "raise_read": ["1", ["raise", "OSError"]]}
 
 
@@ -317,6 +327,34 @@ def warm_body(ctx, case):
     sim.step(["call", m2, list(em.METHODS[m2][1]), {}])
     sim.step(["call", m2, list(em.METHODS[m2][1]), {}])
     ctx.record(case, sim.flags | {"warm_history"}, nontrivial=latched)
+
+
+def vocabulary_grid():
+    """The latch must hold for every request text, not only for the sample ones: each command / query text of the
+    shared vocabulary after an error, after a disconnect and on a never-connected object."""
+    for state in ("silence", "errline", "late_reply", "disconnected", "never_connected"):
+        for text in em.COMMAND_TEXTS:
+            yield ["vocab", state, "command", text]
+        for text in em.QUERY_TEXTS:
+            yield ["vocab", state, "query", text]
+
+
+def vocabulary_body(ctx, case):
+    _tag, state, method, text = case
+    sim = Sim(ctx)
+    if state != "never_connected":
+        sim.step(["connect", "good"])
+        if state == "disconnected":
+            sim.step(["disconnect", None])
+        else:
+            idx, action = WARM_FAULTS[state]
+            if state == "late_reply":
+                sim.step(["call", "command", ["CS"], {idx: action}])      # a command times out; its echo arrives late
+            else:
+                sim.step(["call", "query", ["QS"], {idx: action}])
+    sim.step(["call", method, [text], {}])
+    sim.step(["call", method, [text], {}])
+    ctx.record(case, sim.flags | {"vocabulary"}, nontrivial=True)
 
 
 def flood_grid():
@@ -361,18 +399,21 @@ def close_body(ctx, case):
 
 
 def run(ctx):
+    ctx.exhaustive("vocabulary-grid", vocabulary_grid(), vocabulary_body,
+                   "every command / query text of the vocabulary after a latched error (3 kinds), after a disconnect "
+                   "and on a never-connected object")
     ctx.exhaustive("flood-grid", flood_grid(), flood_body,
-                   "5 fault kinds latch an error, then 40 failed connects of 4 kinds: the first message survives")
+                   "6 fault kinds latch an error, then 40 failed connects of 4 kinds: the first message survives")
     ctx.exhaustive("close-grid", close_grid(), close_body,
                    "connect, one request, disconnect with close() succeeding / raising each serial exception, then "
                    "each of the 32 methods")
     ctx.exhaustive("warm-grid", warm_grid(), warm_body,
-                   "30 successful calls (every method, fixed arguments), then 5 fault kinds x 5 carrier methods, "
+                   "30 successful calls (every method, fixed arguments), then 6 fault kinds x 5 carrier methods, "
                    "then each of the 32 methods twice")
     unknown = em.unknown_public_methods()
     ctx.notes["public_methods_not_in_table"] = unknown
     ctx.exhaustive("method-fault-method-grid", grid(), grid_body,
-                   "32 request methods x 6 fault kinds x 32 request methods + 32 never-connected calls")
+                   "32 request methods x 7 fault kinds x 32 request methods + 32 never-connected calls")
     machine = type("ErrorLatchMachine", (Machine,), {"ctx": ctx})
     ctx.machine("histories", machine, quick=2000, thorough=80000, steps=25)
 
@@ -380,6 +421,9 @@ def run(ctx):
 def replay(ctx, part, case):
     if case and case[0] == "warm":
         warm_body(ctx, case)
+        return
+    if case and case[0] == "vocab":
+        vocabulary_body(ctx, case)
         return
     if case and case[0] == "flood":
         flood_body(ctx, case)
